@@ -2,5 +2,6 @@ INIT GInit
 NEXT GNext
 CONSTANT Mode = "fixed"
 CONSTANT IntoMode = "faithful"
+CONSTANT EncMode = "faithful"
 CONSTANT Tier = "quick"
 CHECK_DEADLOCK FALSE
